@@ -108,7 +108,8 @@ SYMBOLS = {}
 def resolve_symbol(name):
   mod, _, attr = name.partition(':')
   import importlib
-  m = importlib.import_module('harness.vuni.' + mod)
+  # 'std.<module>:<attr>' names a top-level (standard library) module
+  m = importlib.import_module(mod[4:] if mod.startswith('std.') else 'harness.vuni.' + mod)
   obj = m
   for part in attr.split('.'):
     obj = getattr(obj, part)
